@@ -3927,6 +3927,7 @@ void CheckClass::getErrorMessages(ErrorLogger *errorLogger, const Settings *sett
     c.uninitVarError(nullptr, true, FunctionType::eConstructor, "classname", "varnamepriv", false, false);
     c.uninitVarError(nullptr, false, FunctionType::eConstructor, "classname", "varname", true, false);
     c.uninitVarError(nullptr, true, FunctionType::eConstructor, "classname", "varnamepriv", true, false);
+    c.uninitVarError(nullptr, false, FunctionType::eConstructor, "classname", "varname", false, false, true);
     c.missingMemberCopyError(nullptr, FunctionType::eConstructor, "classname", "varnamepriv");
     c.operatorEqVarError(nullptr, "classname", "", false);
     c.unusedPrivateFunctionError(nullptr, nullptr, "classname", "funcname");
